@@ -27,6 +27,10 @@ import (
 const (
 	ringKey = "ring"
 	partKey = "partitions"
+	// a second ring in which the same instances register (one process, several rings) and a key that is written
+	// a few times and then deleted
+	ring2Key = "ring2"
+	auxKey   = "aux"
 )
 
 type gwatch struct {
